@@ -127,6 +127,9 @@ class IH5MFRecord(IH5Record):
     _manifest: Optional[IH5Manifest] = None
     """Manifest of newest loaded container file (only None for new uncommited records)."""
 
+    _manifest_file: Optional[Path] = None
+    """File the manifest was loaded from or written to (it can be given explicitly)."""
+
     @property
     def manifest(self) -> IH5Manifest:
         """Return loaded manifest object of latest committed record patch."""
@@ -214,6 +217,7 @@ class IH5MFRecord(IH5Record):
                 raise ValueError(f"{ret._files[idx].filename}: {msg}")
 
             ret._manifest = IH5Manifest.parse_file(manifest_file)
+            ret._manifest_file = manifest_file
             # NOTE: as long as we enforce checksum of manifest, this failure can't happen:
             # if ubext.manifest_uuid != self._manifest.manifest_uuid:
             #     raise ValueError(f"{ub._filename}: Manifest file has wrong UUID!")
@@ -247,7 +251,9 @@ class IH5MFRecord(IH5Record):
             assert ext is not None and ext.manifest_uuid == self.manifest.manifest_uuid
             # overwrite the "fresh" manifest from merge with the original one
             # (as committed - the manifest object could have been changed meanwhile)
-            orig_mf = self._manifest_filepath(self._files[-1].filename)
+            orig_mf = self._manifest_file
+            if orig_mf is None:
+                orig_mf = self._manifest_filepath(self._files[-1].filename)
             if orig_mf.is_file():
                 copyfile(orig_mf, self._manifest_filepath(file))
             else:
@@ -302,7 +308,8 @@ class IH5MFRecord(IH5Record):
 
         # as everything is fine, finally (over)write manifest here and on disk
         self._manifest = mf
-        mf.save(self._manifest_filepath(self._files[-1].filename))
+        self._manifest_file = self._manifest_filepath(self._files[-1].filename)
+        mf.save(self._manifest_file)
 
     @classmethod
     def create_stub(
